@@ -345,11 +345,18 @@ theorem uniqueLoop_spec : ∀ (xs hs us : List PyVal),
 
 /-- **UniqueItems**: true exactly when no item equals an earlier item *of the same exact type*
     (so `1`, `True`, `1.0` are three distinct items), for hashable and unhashable items alike -/
-theorem C15_uniqueItems (oid : Nat) (xs : List PyVal) (hc : HashCompat xs) :
+theorem C15_uniqueItems (oid : Nat) (xs : List PyVal) (hc : HashCompat xs) (hs : snanInsideL xs = false) :
     ∃ b, PredK.uniqueItems.call (.list oid xs) = .ok b ∧ (b = true ↔ UniqueSpec xs) := by
-  refine ⟨uniqueLoop xs [] [], by simp [PredK.call, pyIter], ?_⟩
+  refine ⟨uniqueLoop xs [] [], by simp [PredK.call, pyIter, hs], ?_⟩
   rw [uniqueLoop_spec xs [] [] (by simp) (by simp) (by simpa using hc)]
   simp
+
+/-- the excluded case is finding D30: with a signalling Decimal NaN among (or inside) the items a comparison may raise -
+    `[[sNaN], [1]]` does, `[[sNaN], [1, 2]]` does not (lists of different lengths are unequal before any element is
+    looked at) -/
+example : PredK.uniqueItems.call (.list 0 [.list 0 [.decimal .snan], .list 0 [.int 1]]) = .error .invalidOperation ∧
+          PredK.uniqueItems.call (.list 0 [.list 0 [.decimal .snan], .list 0 [.int 1, .int 2]]) = .ok true := by
+  constructor <;> rfl
 
 /-- `1`, `True` and `1.0` are pairwise distinct for `UniqueItems`; two `1`s are not -/
 example : PredK.uniqueItems.call (.list 0 [.int 1, .bool true, .float (.fin false 1 0)]) = .ok true ∧
